@@ -1,5 +1,6 @@
 /- C19 simulation, part C5: checkCommit (the block goes to the ledger) and checkPrepare. -/
 import NeoModel.Proofs.DbftSimC4
+import NeoModel.Proofs.DbftWitness
 namespace NeoModel.Dbft.Mach
 open NeoModel.Dbft
 
@@ -37,6 +38,25 @@ def bwF (nd : Node) (b : Block) (j : Nat) : Option (Nat × Bool) :=
 
 theorem blockWitness_eq (e : Env) (nd : Node) (b : Block) :
     blockWitness e nd b = ((List.range e.n).filterMap (bwF nd b)).take e.m := rfl
+
+/-- In a network of honest machines every Commit held for the current view signs the header: its signer
+signed a block of this height and view (a relayed Commit keeps the view it was sent in, ec63204), M validators
+prepared that block, and whatever was prepared in this view is the request held. -/
+theorem good_commitsSign {e : Env} {as : State} {i : Nat} {w : W} (h : Good e as i w) (b : Block)
+    (hh : w.nd.header = some b) : CommitsSign w.nd b := by
+  intro j x sb hs hxv
+  obtain ⟨y, sb', he, _, _, hm, hsh, hsv⟩ := h.rn.commit j _ hs
+  simp only [Pl.commit.injEq] at he
+  obtain ⟨rfl, rfl⟩ := he
+  have inv := inv_reachable (cfgOf e) as h.g.1
+  have hn : 0 < (cfgOf e).n := Nat.lt_of_le_of_lt (Nat.zero_le _) h.lt
+  obtain ⟨k, _, hk⟩ := countP_pos (cfgOf e).n _ (Nat.lt_of_lt_of_le (m_pos (cfgOf e) hn) (inv.commitPrepared j sb hm))
+  simp only [preparedBy, decide_eq_true_eq] at hk
+  obtain ⟨_, p, _, hbeq, hbprim, hpidx⟩ := header_request h.rn b hh
+  rw [hpidx] at hbprim
+  rw [hbeq] at hbprim ⊢
+  have hbk := prepared_is_request h.g hbprim ⟨sb, hk, hsh, by rw [hsv, hxv]⟩
+  exact inv.prepUniq k sb _ hk hbk hsh (by rw [hsv, hxv])
 
 /-- check.go:106-153 on the machine -/
 theorem prog_checkCommit {e : Env} {as : State} {i : Nat} {w : W} (h : Good e as i w)
@@ -114,7 +134,13 @@ theorem prog_checkCommit {e : Env} {as : State} {i : Nat} {w : W} (h : Good e as
       have inv := inv_reachable (cfgOf e) as h.g.1
       refine ⟨_, x1.trans x2, ?_⟩
       have rn1 := g1.rn
-      refine ⟨g1.g.ext x2, ?_, ?_, h.st, h.lt⟩
+      have hblk : ∀ b' s, Out.block b' s ∈ Out.block b (blockWitness e w.nd b) :: w.out → ∀ t ∈ s, t.2 = true := by
+        intro b' s hp
+        simp only [List.mem_cons, Out.block.injEq] at hp
+        rcases hp with ⟨_, rfl⟩ | hp
+        · exact blockWitness_valid e w.nd b (good_commitsSign h b hh)
+        · exact h.blk b' s hp
+      refine ⟨g1.g.ext x2, ?_, ?_, fun b' s hp => hblk b' s (by simpa [W.upd, W.emit] using hp), h.st, h.lt⟩
       · refine ⟨rn1.my, rn1.lens, by rw [hc2, rn1.chain]; rfl, ?_, ?_, rn1.pidx, ?_, ?_, ?_, ?_, ?_, ?_⟩
         · rw [hh2, rn1.height]; simp [W.upd, W.emit, addToChain, postBlock]
         · right; left
@@ -136,7 +162,13 @@ theorem prog_checkCommit {e : Env} {as : State} {i : Nat} {w : W} (h : Good e as
         exact (g1.outs pl this).ext x2
     · -- the ledger turns the block down: the machine stops for this height, nothing happens abstractly
       simp only [hok, Bool.false_eq_true, if_false]
-      refine Prog.of_good ⟨h.g, ?_, ?_, h.st, h.lt⟩
+      have hblk : ∀ b' s, Out.block b' s ∈ Out.block b (blockWitness e w.nd b) :: w.out → ∀ t ∈ s, t.2 = true := by
+        intro b' s hp
+        simp only [List.mem_cons, Out.block.injEq] at hp
+        rcases hp with ⟨_, rfl⟩ | hp
+        · exact blockWitness_valid e w.nd b (good_commitsSign h b hh)
+        · exact h.blk b' s hp
+      refine Prog.of_good ⟨h.g, ?_, ?_, fun b' s hp => hblk b' s (by simpa [W.upd, W.emit] using hp), h.st, h.lt⟩
       · have rn := h.rn
         refine ⟨rn.my, rn.lens, rn.chain, rn.height, ?_, rn.pidx, rn.prep, rn.commit, rn.cv, rn.lastCv, rn.cache, rn.own⟩
         left; exact ⟨hbi, hview, hgp, hgc⟩
